@@ -241,7 +241,13 @@ class dotdict_base( object ):
         getter			= getattr( target, '__getitem__', None )
         if getter is None:
             raise KeyError( 'cannot get "%s" in "%s" (%r); not subscriptable' % ( rest, mine, target ))
-        return getter( rest )
+        try:
+            return getter( rest )
+        except KeyError:
+            raise
+        except Exception as exc:
+            # eg. a list or str asked for a name: the path does not exist
+            raise KeyError( 'cannot get "%s" in "%s" (%s: %s)' % ( rest, mine, exc.__class__.__name__, exc ))
 
     def __getattr__( self, key ):
         try:
